@@ -194,7 +194,7 @@ func genWrap(seed uint64, faulty bool) *Scenario {
 	g := &gen{r: rand.New(rand.NewPCG(seed, 0x5eed5eed))}
 	sc := &Scenario{Prop: "C20", Seed: seed, Faulty: faulty, GlobalCB: "instant", Shutdown: "cancel", MaxSteps: 8000}
 	w := &WrapSpec{Manglers: manglerLists[g.r.IntN(len(manglerLists))], InitID: g.id()}
-	w.Kind = []string{"twatch", "twatch", "tstatic", "blank-static", "blank-watch", "blank-twatch", "blank-only"}[g.r.IntN(7)]
+	w.Kind = []string{"twatch", "twatch", "tstatic", "blank-static", "blank-watch", "blank-twatch", "blank-only", "blank-inside-t"}[g.r.IntN(8)]
 	if faulty && g.pct(25) {
 		w.Fault = []string{"value-err", "watch-err", "both-alias"}[g.r.IntN(3)]
 		if w.Fault == "both-alias" && !contains(w.Manglers, "alias") {
@@ -363,6 +363,12 @@ func runWrap(sc *Scenario, res *Result, keepLog bool) {
 		wsrc = sourcewrap.NewTransformingSource(innerW, mg...)
 	case "tstatic":
 		wsrc = sourcewrap.NewTransformingSource(&wInner{id: w.InitID, own: "Stamp", both: w.Fault == "both-alias", failVal: w.Fault == "value-err"}, mg...)
+	case "blank-inside-t":
+		// the other nesting: a Blank behind the transforming source; what is later
+		// set on it lives in the mangled layout and is not wrapped again
+		blank = &sourcewrap.Blank{}
+		wsrc = sourcewrap.NewTransformingSource(blank, mg...)
+		nat.id = 0
 	default:
 		blank = &sourcewrap.Blank{}
 		wsrc = blank
@@ -562,7 +568,7 @@ func (r *wrapRun) wrapped(c *ClientSpec, blank *sourcewrap.Blank, inner *wInnerW
 		case "set-static", "set-fail":
 			in := &wInner{id: id, own: "Stamp", failVal: op.K == "set-fail"}
 			var src dials.Source = in
-			if r.sc.Wrap.Kind == "blank-twatch" || len(names) > 0 {
+			if (r.sc.Wrap.Kind == "blank-twatch" || len(names) > 0) && r.sc.Wrap.Kind != "blank-inside-t" {
 				src = sourcewrap.NewTransformingSource(in, mg...)
 			}
 			err := blank.SetSource(r.ctx, src)
@@ -594,7 +600,7 @@ func (r *wrapRun) wrapped(c *ClientSpec, blank *sourcewrap.Blank, inner *wInnerW
 			// keeps its slot and its previous inner source
 			iw := &wInnerWatch{wInner: wInner{id: id, own: "Stamp", failVal: true}}
 			var src dials.Source = iw
-			if len(names) > 0 {
+			if len(names) > 0 && r.sc.Wrap.Kind != "blank-inside-t" {
 				src = sourcewrap.NewTransformingSource(iw, mg...)
 			}
 			err := blank.SetSource(r.ctx, src)
@@ -616,7 +622,7 @@ func (r *wrapRun) wrapped(c *ClientSpec, blank *sourcewrap.Blank, inner *wInnerW
 				iw.eager = id + 1<<33
 			}
 			var src dials.Source = iw
-			if r.sc.Wrap.Kind == "blank-twatch" || len(names) > 0 {
+			if (r.sc.Wrap.Kind == "blank-twatch" || len(names) > 0) && r.sc.Wrap.Kind != "blank-inside-t" {
 				src = sourcewrap.NewTransformingSource(iw, mg...)
 			}
 			err := blank.SetSource(r.ctx, src)
